@@ -72,3 +72,4 @@ WRAP K* w_kll_inject(uint16_t k, const uint32_t* pops, uint8_t nl, const int32_t
     return s;
   } catch (...) { return nullptr; }
 }
+WRAP uint16_t w_kll_min_k(const K* s) { return s->min_k_; }
